@@ -72,6 +72,9 @@ func writeEvidence(e *Engine, prop, tier string, seed int, wall float64, nObl, n
 		assumptions = append(assumptions, "contract files not found in /repo; mirror under /verif/contracts used")
 	}
 	var notDecided []string
+	if data, err := os.ReadFile(filepath.Join(e.verif, "not_decided.json")); err == nil {
+		json.Unmarshal(data, &notDecidedByProp)
+	}
 	if nd, ok := notDecidedByProp[prop]; ok {
 		notDecided = nd
 	}
